@@ -691,6 +691,100 @@ theorem mask_exact_tree (e : MExpr) (hw : e.WF) (r : Opd) (h : e.eval = some r) 
     rw [← ihm1 _ (valid_bidx _ _ ba i hv), ← ihm2 _ (valid_bidx _ _ bb i hv), atB_proj ihf1, atB_proj ihf2,
       Bool.or_assoc]
 
+/-! ### the tree theorem flattened to leaves -/
+
+theorem shapes_fs_into (p : Path) (ops : List Opd) (fs s : Shape) (h : p.shapes ops = some (fs, s)) :
+    bcast fs s = some s := by
+  cases p <;> (
+    match ops, h with
+    | [a], h =>
+      first
+        | (simp only [Path.shapes, Option.some.injEq, Prod.mk.injEq] at h
+           obtain ⟨rfl, rfl⟩ := h; exact bcast_self _)
+        | (simp [Path.shapes] at h)
+    | [a, b], h =>
+      first
+        | (simp only [Path.shapes, Option.map_eq_some_iff, Prod.mk.injEq] at h
+           obtain ⟨o, ho, rfl, rfl⟩ := h
+           first | exact bcast_self _ | exact (bcast_absorb _ _ _ ho).2)
+        | (simp only [Path.shapes, Option.some.injEq, Prod.mk.injEq] at h
+           obtain ⟨rfl, rfl⟩ := h; exact bcast_self _)
+        | (simp [Path.shapes] at h)
+    | [a, b, c], h =>
+      first
+        | (simp only [Path.shapes, Option.bind_eq_some_iff, Option.map_eq_some_iff, Prod.mk.injEq] at h
+           obtain ⟨bc, _, o, _, rfl, rfl⟩ := h; exact bcast_self _)
+        | (simp [Path.shapes] at h)
+    | [], h => simp [Path.shapes] at h
+    | _ :: _ :: _ :: _ :: _, h => simp [Path.shapes] at h)
+
+/-- a failure set that fits the shape it is computed on is unchanged by projecting the index
+    onto the result shape first -/
+theorem failAt_proj (p : Path) (f : Mask) (fs s : Shape) (hf : f.Fits fs) (hb : bcast fs s = some s)
+    (i : Index) : p.failAt f (bidx s i) = p.failAt f i := by
+  have : f.atB (bidx s i) = f.atB i := by
+    cases f with
+    | all b => rfl
+    | arr a => simp only [Mask.Fits] at hf; subst hf; simp only [Mask.atB, bidx_bidx_into _ _ hb]
+  cases p <;> simp [Path.failAt, this]
+
+/-- `MExpr.spec` (recursive, with a projection at every binary node) equals `MExpr.flat`
+    (every leaf and failure looked up directly), and `flat` is invariant under projection onto
+    the expression's own shape -/
+theorem spec_eq_flat (e : MExpr) (hw : e.WF) (r : Opd) (h : e.eval = some r) :
+    (∀ i, e.flat (bidx r.shape i) = e.flat i) ∧ (∀ i, Valid r.shape i → e.spec i = e.flat i) := by
+  induction e generalizing r with
+  | leaf o =>
+    simp only [MExpr.eval, Option.some.injEq] at h
+    subst h
+    exact ⟨fun i => atB_proj hw i, fun _ _ => rfl⟩
+  | un p f e ih =>
+    have hx := mask_exact_tree _ hw r h
+    simp only [MExpr.eval, Option.bind_eq_some_iff, Option.map_eq_some_iff] at h
+    obtain ⟨a, ha, ⟨s, m⟩, hr, rfl⟩ := h
+    obtain ⟨hwe, hwn⟩ := hw
+    obtain ⟨ihP, ihQ⟩ := ih hwe a ha
+    obtain ⟨_, ihf, _⟩ := mask_exact_tree e hwe a ha
+    obtain ⟨hff, hso⟩ := hwn a ha
+    obtain ⟨⟨fs, hsh⟩, _, _⟩ := mask_exact p [a] f s m (by simpa using ihf) hso hff hr
+    have hs : s = a.shape := shapes_un p a fs s hsh
+    subst hs
+    have hfs : f.Fits fs := by simpa [Path.FailFits, hsh] using hff
+    refine ⟨fun i => ?_, fun i hv => ?_⟩
+    · simp only [MExpr.flat, ihP i, failAt_proj p f fs _ hfs (shapes_fs_into _ _ _ _ hsh) i]
+    · simp only [MExpr.spec, MExpr.flat, ihQ i hv]
+  | bin p f e1 e2 ih1 ih2 =>
+    simp only [MExpr.eval, Option.bind_eq_some_iff, Option.map_eq_some_iff] at h
+    obtain ⟨a, ha, b, hb, ⟨s, m⟩, hr, rfl⟩ := h
+    obtain ⟨hw1, hw2, hwn⟩ := hw
+    obtain ⟨ihP1, ihQ1⟩ := ih1 hw1 a ha
+    obtain ⟨ihP2, ihQ2⟩ := ih2 hw2 b hb
+    obtain ⟨ihs1, ihf1, _⟩ := mask_exact_tree e1 hw1 a ha
+    obtain ⟨ihs2, ihf2, _⟩ := mask_exact_tree e2 hw2 b hb
+    obtain ⟨hff, hso⟩ := hwn a b ha hb
+    have hfits : ∀ o ∈ [a, b], o.mask.Fits o.shape := by
+      intro o ho; simp at ho; rcases ho with rfl | rfl <;> assumption
+    obtain ⟨⟨fs, hsh⟩, _, _⟩ := mask_exact p [a, b] f s m hfits hso hff hr
+    have hfs : f.Fits fs := by simpa [Path.FailFits, hsh] using hff
+    have hbc := run_bin_bcast p a b f s m hr
+    obtain ⟨ba, bb⟩ := bcast_absorb _ _ _ hbc
+    have p1 : ∀ i, e1.flat (bidx s i) = e1.flat i := fun i => by
+      rw [← ihP1 (bidx s i), bidx_bidx_into _ _ ba, ihP1]
+    have p2 : ∀ i, e2.flat (bidx s i) = e2.flat i := fun i => by
+      rw [← ihP2 (bidx s i), bidx_bidx_into _ _ bb, ihP2]
+    refine ⟨fun i => ?_, fun i hv => ?_⟩
+    · simp only [MExpr.flat, p1 i, p2 i, failAt_proj p f fs _ hfs (shapes_fs_into _ _ _ _ hsh) i]
+    · simp only [MExpr.spec, MExpr.flat, ihs1, ihs2, Option.getD_some]
+      rw [ihQ1 _ (valid_bidx _ _ ba i hv), ihQ2 _ (valid_bidx _ _ bb i hv), ihP1, ihP2]
+
+/-- FLATTENED TREE THEOREM: for every expression tree over the catalogue (any depth, any
+    shapes, any mask representations), the result element at `i` is masked iff one of the LEAVES
+    that broadcast onto `i` is masked there, or one of the sub-expressions on the way is
+    undefined there.  Nothing more, nothing less. -/
+theorem mask_flat_tree (e : MExpr) (hw : e.WF) (r : Opd) (h : e.eval = some r) (i : Index)
+    (hv : Valid r.shape i) : r.mask.atB i = e.flat i := by
+  rw [(mask_exact_tree e hw r h).2.2 i hv, (spec_eq_flat e hw r h).2 i hv]
+
 /-- operands that broadcast never make `Qube.or_` + constructor raise -/
 theorem ctorOr_defined (a b : Opd) (out : Shape) (ha : a.mask.Fits a.shape) (hb : b.mask.Fits b.shape)
     (h : bcast a.shape b.shape = some out) (fail : Mask) :
@@ -815,6 +909,219 @@ theorem powArr_defined (a b : Opd) (out : Shape) (fail : Mask) (same : Bool)
     exact ⟨m3, by simp [run, h, h1, hany, h2, h3]⟩
   · obtain ⟨m3, h3⟩ := ctor_defined m1 _ _ _ h hfit
     exact ⟨m3, by simp [run, h, h1, hany, h3]⟩
+
+theorem orPipe_defined (m0 m1 : Mask) (s0 s1 out : Shape) (h0 : m0.Fits s0) (h1 : m1.Fits s1)
+    (hb : bcast s0 s1 = some out) :
+    ∃ m, orPipe m0 m1 = some m ∧ (m.Fits s0 ∨ m.Fits s1 ∨ m.Fits out) := by
+  cases m0 with
+  | all b0 =>
+    cases m1 with
+    | all b1 => exact ⟨_, rfl, Or.inl trivial⟩
+    | arr a1 => exact ⟨_, rfl, Or.inr (Or.inl (by simpa [Mask.Fits, Arr.map] using h1))⟩
+  | arr a0 =>
+    cases m1 with
+    | all b1 => exact ⟨_, rfl, Or.inl (by simpa [Mask.Fits, Arr.map] using h0)⟩
+    | arr a1 =>
+      simp only [Mask.Fits] at h0 h1
+      subst h0; subst h1
+      simp [orPipe, Arr.map2, hb, Mask.Fits]
+
+theorem divPipe_defined (a b : Opd) (out : Shape) (fail : Mask)
+    (ha : a.mask.Fits a.shape) (hb : b.mask.Fits b.shape) (hf : fail.Fits b.shape)
+    (h : bcast a.shape b.shape = some out) :
+    ∃ m, run .divPipe [a, b] fail = some (out, m) := by
+  obtain ⟨bm, h1⟩ := maskWhere_defined b fail true hb hf
+  have fbm := maskWhere_fits _ _ _ _ hb h1
+  obtain ⟨m1, h2, hfit⟩ := orPipe_defined a.mask bm _ _ _ ha fbm h
+  obtain ⟨m2, h3⟩ := ctor_defined m1 _ _ _ h hfit
+  exact ⟨m2, by simp [run, h, h1, h2, h3]⟩
+
+/-- OR-ing a failure array of the operand's own shape into its mask, when `np.any` says so -/
+theorem orFail_defined (m fail : Mask) (s : Shape) (hm : m.Fits s) (hf : fail.Fits s) :
+    ∃ r, (if fail.any then or_ false m fail else some m) = some r ∧ r.Fits s := by
+  by_cases hany : fail.any = true
+  · obtain ⟨r, e, f⟩ := or_defined false m fail s s s hm hf (bcast_self s)
+    exact ⟨r, by simp [hany, e], by rcases f with f | f | f <;> exact f⟩
+  · exact ⟨m, by simp [hany], hm⟩
+
+theorem guardAsin_defined (a : Opd) (fail : Mask) (ha : a.mask.Fits a.shape) (hf : fail.Fits a.shape) :
+    ∃ m, run .guardAsin [a] fail = some (a.shape, m) := by
+  by_cases hany : fail.any = true
+  · cases fail with
+    | all bb =>
+      obtain ⟨m2, h2⟩ := ctor_defined (.all true) _ _ _ (bcast_self a.shape) (Or.inl trivial)
+      exact ⟨m2, by simp [run, hany, h2]⟩
+    | arr f =>
+      obtain ⟨r, e, fr⟩ := or_defined false a.mask (.arr f) _ _ _ ha hf (bcast_self a.shape)
+      have frs : r.Fits a.shape := by rcases fr with f | f | f <;> exact f
+      obtain ⟨m2, h2⟩ := ctor_defined r _ _ _ (bcast_self a.shape) (Or.inl frs)
+      exact ⟨m2, by simp [run, hany, e, h2]⟩
+  · obtain ⟨m2, h2⟩ := ctor_defined a.mask _ _ _ (bcast_self a.shape) (Or.inl ha)
+    exact ⟨m2, by simp [run, hany, h2]⟩
+
+theorem matInverse_defined (a : Opd) (fail : Mask) (ha : a.mask.Fits a.shape) (hf : fail.Fits a.shape) :
+    ∃ m, run .matInverse [a] fail = some (a.shape, m) := by
+  obtain ⟨m1, h1, f1⟩ := orFail_defined a.mask fail a.shape ha hf
+  obtain ⟨m2, h2⟩ := ctor_defined m1 _ _ _ (bcast_self a.shape) (Or.inl f1)
+  exact ⟨m2, by simp only [run]; rw [h1]; simp [h2]⟩
+
+theorem elementDiv_defined (a b : Opd) (out : Shape) (fail : Mask) (same : Bool)
+    (ha : a.mask.Fits a.shape) (hb : b.mask.Fits b.shape) (hf : fail.Fits b.shape)
+    (h : bcast a.shape b.shape = some out) :
+    ∃ m, run (.elementDiv same) [a, b] fail = some (out, m) := by
+  obtain ⟨dm, h1, f1⟩ := orFail_defined b.mask fail b.shape hb hf
+  obtain ⟨m1, h2, hfit⟩ := or_defined (same && !fail.any) a.mask dm _ _ _ ha f1 h
+  obtain ⟨m2, h3⟩ := ctor_defined m1 _ _ _ h hfit
+  exact ⟨m2, by simp only [run, h, Option.bind_some]; rw [h1]; simp [h2, h3]⟩
+
+theorem pow0D_defined (a b : Opd) (fail : Mask) (same : Bool)
+    (ha : a.mask.Fits a.shape) (hb : b.mask.Fits b.shape) (hsa : a.shape = []) (hsb : b.shape = []) :
+    ∃ m, run (.pow0D same) [a, b] fail = some ([], m) := by
+  simp only [run, hsa, hsb, and_self, if_true]
+  by_cases hany : fail.any = true
+  · exact ⟨.all true, by simp [hany]⟩
+  · obtain ⟨m1, h1, hfit⟩ := or_defined same a.mask b.mask [] [] [] (hsa ▸ ha) (hsb ▸ hb) (bcast_self [])
+    obtain ⟨m2, h2⟩ := ctor_defined m1 [] [] [] (bcast_self []) hfit
+    exact ⟨m2, by simp [hany, h1, h2]⟩
+
+/-- `from_euler`: after `Qube.broadcast` the three angle operands have one common shape -/
+theorem ctorOr3_defined (a b c : Opd) (fail : Mask) (ha : a.mask.Fits a.shape) (hb : b.mask.Fits b.shape)
+    (hc : c.mask.Fits c.shape) (hab : a.shape = b.shape) (hbc : b.shape = c.shape) :
+    ∃ m, run .ctorOr3 [a, b, c] fail = some (a.shape, m) := by
+  have e1 : bcast b.shape c.shape = some a.shape := by rw [← hbc, ← hab]; exact bcast_self _
+  obtain ⟨r, h1, f1⟩ := or_defined false b.mask c.mask a.shape a.shape a.shape (hab ▸ hb) (hab ▸ hbc ▸ hc)
+    (bcast_self _)
+  have fr : r.Fits a.shape := by rcases f1 with f | f | f <;> exact f
+  obtain ⟨r2, h2, f2⟩ := or_defined false a.mask r a.shape a.shape a.shape ha fr (bcast_self _)
+  have fr2 : r2.Fits a.shape := by rcases f2 with f | f | f <;> exact f
+  obtain ⟨m, h3⟩ := ctor_defined r2 _ _ _ (bcast_self a.shape) (Or.inl fr2)
+  exact ⟨m, by simp [run, e1, bcast_self, orList, h1, h2, h3]⟩
+
+/-- side conditions under which the code reaches a path: `pow0D` only for two shapeless operands,
+    `ctorOr3` after `Qube.broadcast` (one common shape) -/
+def Path.Pre (p : Path) (ops : List Opd) : Prop :=
+  match p, ops with
+  | .pow0D _, [a, b] => a.shape = [] ∧ b.shape = []
+  | .ctorOr3, [a, b, c] => a.shape = b.shape ∧ b.shape = c.shape
+  | _, _ => True
+
+/-- RESULT EXISTS, for every path: operands whose shapes broadcast (`p.shapes` defined), whose
+    masks fit their shapes, and a failure set of the shape the code computes it on, never make
+    the mask computation raise; together with `mask_exact` the result mask is then the union. -/
+theorem run_defined (p : Path) (ops : List Opd) (fail : Mask) (fs s : Shape)
+    (hsh : p.shapes ops = some (fs, s)) (hfit : ∀ o ∈ ops, o.mask.Fits o.shape)
+    (hfail : fail.Fits fs) (hpre : p.Pre ops) : ∃ m, run p ops fail = some (s, m) := by
+  cases p with
+  | cloneSet =>
+    match ops, hsh with
+    | [a], hsh => simp only [Path.shapes, Option.some.injEq, Prod.mk.injEq] at hsh; exact ⟨a.mask, by simp [run, hsh.2]⟩
+  | setTrue =>
+    match ops, hsh with
+    | [a], hsh =>
+      simp only [Path.shapes, Option.some.injEq, Prod.mk.injEq] at hsh
+      exact ⟨.all true, by simp [run, suitableMask, hsh.2]⟩
+  | ctor1 =>
+    match ops, hsh with
+    | [a], hsh =>
+      simp only [Path.shapes, Option.some.injEq, Prod.mk.injEq] at hsh
+      obtain ⟨_, rfl⟩ := hsh
+      obtain ⟨m, hm⟩ := ctor_defined a.mask _ _ _ (bcast_self a.shape) (Or.inl (hfit a (by simp)))
+      exact ⟨m, by simp [run, hm]⟩
+  | ctorOr same =>
+    match ops, hsh with
+    | [a, b], hsh =>
+      simp only [Path.shapes, Option.map_eq_some_iff, Prod.mk.injEq] at hsh
+      obtain ⟨o, ho, _, rfl⟩ := hsh
+      obtain ⟨m1, h1, hf⟩ := or_defined same a.mask b.mask _ _ _ (hfit a (by simp)) (hfit b (by simp)) ho
+      obtain ⟨m2, h2⟩ := ctor_defined m1 _ _ _ ho hf
+      exact ⟨m2, by simp [run, ho, h1, h2]⟩
+  | ctorOr3 =>
+    match ops, hsh, hpre with
+    | [a, b, c], hsh, hpre =>
+      obtain ⟨hab, hbc⟩ := hpre
+      have e1 : bcast b.shape c.shape = some a.shape := by rw [← hbc, ← hab]; exact bcast_self _
+      simp only [Path.shapes, e1, Option.bind_some, bcast_self, Option.map_some, Option.some.injEq,
+        Prod.mk.injEq] at hsh
+      obtain ⟨m, hm⟩ := ctorOr3_defined a b c fail (hfit a (by simp)) (hfit b (by simp)) (hfit c (by simp)) hab hbc
+      exact ⟨m, by rw [← hsh.2]; exact hm⟩
+  | divScalar same =>
+    match ops, hsh with
+    | [a, b], hsh =>
+      simp only [Path.shapes, Option.map_eq_some_iff, Prod.mk.injEq] at hsh
+      obtain ⟨o, ho, rfl, rfl⟩ := hsh
+      exact divScalar_defined a b o fail same (hfit a (by simp)) (hfit b (by simp)) hfail ho
+  | divPipe =>
+    match ops, hsh with
+    | [a, b], hsh =>
+      simp only [Path.shapes, Option.map_eq_some_iff, Prod.mk.injEq] at hsh
+      obtain ⟨o, ho, rfl, rfl⟩ := hsh
+      exact divPipe_defined a b o fail (hfit a (by simp)) (hfit b (by simp)) hfail ho
+  | guard =>
+    match ops, hsh with
+    | [a], hsh =>
+      simp only [Path.shapes, Option.some.injEq, Prod.mk.injEq] at hsh
+      obtain ⟨rfl, rfl⟩ := hsh
+      exact guard_defined a fail (hfit a (by simp)) hfail
+  | guardAsin =>
+    match ops, hsh with
+    | [a], hsh =>
+      simp only [Path.shapes, Option.some.injEq, Prod.mk.injEq] at hsh
+      obtain ⟨rfl, rfl⟩ := hsh
+      exact guardAsin_defined a fail (hfit a (by simp)) hfail
+  | pow0D same =>
+    match ops, hsh, hpre with
+    | [a, b], hsh, hpre =>
+      simp only [Path.shapes, Option.some.injEq, Prod.mk.injEq] at hsh
+      obtain ⟨_, rfl⟩ := hsh
+      exact pow0D_defined a b fail same (hfit a (by simp)) (hfit b (by simp)) hpre.1 hpre.2
+  | powArr same =>
+    match ops, hsh with
+    | [a, b], hsh =>
+      simp only [Path.shapes, Option.map_eq_some_iff, Prod.mk.injEq] at hsh
+      obtain ⟨o, ho, rfl, rfl⟩ := hsh
+      exact powArr_defined a b _ fail same (hfit a (by simp)) (hfit b (by simp)) hfail ho
+  | elementDiv same =>
+    match ops, hsh with
+    | [a, b], hsh =>
+      simp only [Path.shapes, Option.map_eq_some_iff, Prod.mk.injEq] at hsh
+      obtain ⟨o, ho, rfl, rfl⟩ := hsh
+      exact elementDiv_defined a b o fail same (hfit a (by simp)) (hfit b (by simp)) hfail ho
+  | matInverse =>
+    match ops, hsh with
+    | [a], hsh =>
+      simp only [Path.shapes, Option.some.injEq, Prod.mk.injEq] at hsh
+      obtain ⟨rfl, rfl⟩ := hsh
+      exact matInverse_defined a fail (hfit a (by simp)) hfail
+
+/-! ### KF-C01-1: `Matrix3 * Scalar` (recorded, not repaired) -/
+
+/-- the part that holds: a Matrix3 times anything that is not a Scalar is an ordinary product -/
+theorem matrix3Mul_exact_partial (r x : Opd) (s : Shape) (m : Mask)
+    (h : matrix3Mul false r x = some (s, m)) :
+    bcast r.shape x.shape = some s ∧ ∀ i, Valid s i → m.atB i = (r.mask.atB i || x.mask.atB i) := by
+  simp only [matrix3Mul, Bool.false_eq_true, if_false] at h
+  obtain ⟨hb, _, e⟩ := mask_exact_ctorOr r x (.all false) s m false (by simp) h
+  exact ⟨hb, e⟩
+
+-- FULL (what C01 demands of a "matrix product"):
+--   matrix3Mul sc r x = some (s, m) → bcast r.shape x.shape = some s ∧
+--   ∀ i, Valid s i → m.atB i = (r.mask.atB i || x.mask.atB i)
+/-- the faithful model violates it for a Scalar right operand: a fully masked shape-() rotation
+    times an unmasked Scalar of shape (2,) is unmasked (replay: `Matrix3(np.eye(3), True) *
+    Scalar([1.,2.])`), and the shape of the matrix is ignored as well -/
+theorem matrix3Mul_scalar_counterexample :
+    ¬ (∀ (r x : Opd) (s : Shape) (m : Mask), matrix3Mul true r x = some (s, m) →
+        ∀ i, Valid s i → m.atB i = (r.mask.atB i || x.mask.atB i)) := by
+  intro h
+  have := h ⟨[], .all true⟩ ⟨[2], .all false⟩ [2] (.all false) rfl [0] (by decide)
+  simp [Mask.atB] at this
+
+theorem matrix3Mul_scalar_shape_counterexample :
+    ¬ (∀ (r x : Opd) (s : Shape) (m : Mask), matrix3Mul true r x = some (s, m) →
+        bcast r.shape x.shape = some s) := by
+  intro h
+  have := h ⟨[3], .all false⟩ ⟨[], .all false⟩ [] (.all false) rfl
+  revert this; decide
 
 /-! ### non-vacuity: concrete instances -/
 
